@@ -85,9 +85,11 @@ fn main() {
         "C07" => run_property(props::c07::C07, args),
         "C08" => run_property(props::c08::C08, args),
         "C09" => run_property(props::c09::C09, args),
+        "C10" => run_property(props::c10::C10, args),
         "C11" => run_property(props::c11::C11, args),
         "C12" => run_property(props::c12::C12, args),
         "C13" => run_property(props::c13::C13, args),
+        "C14" => run_property(props::c14::C14, args),
         "C15" => run_property(props::c15::C15, args),
         "C16" => run_property(props::c16::C16, args),
         "C17" => run_property(props::c17::C17, args),
